@@ -194,7 +194,8 @@ macro_rules! create_value_set {
 #[derive(Debug, Default)]
 struct CurrentExecution {
     uncommitted_span_ids: HashSet<RawSpanId>,
-    entered_span_ids: HashSet<RawSpanId>,
+    /// Number of times each span is currently entered (a span can be entered re-entrantly).
+    entered_span_ids: HashMap<RawSpanId, usize>,
 }
 
 impl CurrentExecution {
@@ -204,9 +205,11 @@ impl CurrentExecution {
     }
 
     fn finalize(&mut self, local_spans: &LocalSpans) {
-        for id in mem::take(&mut self.entered_span_ids) {
+        for (id, count) in mem::take(&mut self.entered_span_ids) {
             if let Some(local_id) = local_spans.inner.get(&id) {
-                TracingEventReceiver::dispatch(|dispatch| dispatch.exit(local_id));
+                for _ in 0..count {
+                    TracingEventReceiver::dispatch(|dispatch| dispatch.exit(local_id));
+                }
             }
         }
         for id in mem::take(&mut self.uncommitted_span_ids) {
@@ -467,14 +470,23 @@ impl TracingEventReceiver {
                     self.local_spans.inner.insert(id, local_id.clone());
                     local_id
                 };
-                self.current_execution.entered_span_ids.insert(id);
+                *self
+                    .current_execution
+                    .entered_span_ids
+                    .entry(id)
+                    .or_default() += 1;
                 Self::dispatch(|dispatch| dispatch.enter(&local_id));
             }
             TracingEvent::SpanExited { id } => {
                 if let Some(local_id) = self.map_span_id(id)? {
                     Self::dispatch(|dispatch| dispatch.exit(local_id));
                 }
-                self.current_execution.entered_span_ids.remove(&id);
+                if let Some(count) = self.current_execution.entered_span_ids.get_mut(&id) {
+                    *count -= 1;
+                    if *count == 0 {
+                        self.current_execution.entered_span_ids.remove(&id);
+                    }
+                }
             }
 
             TracingEvent::SpanCloned { id } => {
